@@ -260,9 +260,12 @@ package keeper
 //@ func (k Keeper) ensureIBCPort
 //@ trusted
 //@ modifies Other
+// C17: an imported state is accepted only if the module account holds exactly the recorded deposits plus the recorded
+// fees - whatever the balance is, zero included (otherwise InitGenesis panics and the import is refused)
 //@ func InitGenesis
 //@ may_panic calls
 //@ modifies Store_tunnel, Bank, Other
+//@ assert at end: ext("Coins.Equal", balance, totalBalance)
 //@ ensures forall j :: 0 <= j && j < len(data.Tunnels) ==> has(Store_tunnel, types.TunnelStoreKey(data.Tunnels[j].ID))
 //@ ensures forall j :: 0 <= j && j < len(data.Tunnels) ==> (data.Tunnels[j].IsActive ==> has(Store_tunnel, types.ActiveTunnelIDStoreKey(data.Tunnels[j].ID)))
 //@ loop 0: invariant forall j :: 0 <= j && j < #i ==> has(Store_tunnel, types.TunnelStoreKey(data.Tunnels[j].ID))
